@@ -195,27 +195,52 @@ def check_sequential(run, case):
 # --------------------------------------------------------------------------
 # scheduled concurrency
 
-def _make_fns(eng, texts):
+class _WithOptions:
+    """the two-argument parse form of the same engine"""
+
+    def __init__(self, eng):
+        self.eng = eng
+
+    def __call__(self, text):
+        return self.eng(text, {'yaql.limitIterators': 77})
+
+
+# how often the harness scheduler found a thread blocked by one it had parked
+# (an engine that serialises its parses with a lock cannot be interleaved at
+# token granularity: that is not a violation, the tier is abandoned)
+_STALLS = [0]
+STALL_LIMIT = 3
+
+
+def _make_fns(eng, texts, vias=None):
     common.reset_process_state()
 
-    def mk(t):
+    def mk(t, via):
+        e = _WithOptions(eng) if via == 'options' else eng
+
         def fn():
             lexhook.set_hook(lambda lexer: sched.point())
             try:
-                return trees.parse_outcome(eng, t)
+                return trees.parse_outcome(e, t)
             finally:
                 lexhook.clear_hook()
         return fn
-    return [mk(t) for t in texts]
+    vias = vias or ['plain'] * len(texts)
+    return [mk(t, v) for t, v in zip(texts, vias)]
 
 
 def _run_schedule(run, case, kind, texts, chooser, eng=None):
     lexhook.install()
     eng = eng or sut(kind)
-    s = sched.Scheduler()
+    if _STALLS[0] >= STALL_LIMIT:
+        run.exclude('scheduler tier abandoned: parses block each other')
+        return None
+    s = sched.Scheduler(timeout=3.0)
     try:
-        results, trace, info = s.run(_make_fns(eng, texts), chooser)
+        results, trace, info = s.run(
+            _make_fns(eng, texts, case.get('vias')), chooser)
     except sched.Stuck:
+        _STALLS[0] += 1
         run.inconclusive += 1
         return None
     got = []
@@ -244,16 +269,24 @@ def check_concurrent_choices(run, case):
     kind = case['engine']
     texts = [common.dec(t) for t in case['texts']]
     _run_schedule(run, {'kind': 'concurrent', 'engine': kind,
-                        'texts': case['texts']}, kind, texts,
+                        'texts': case['texts'],
+                        'vias': case.get('vias')}, kind, texts,
                   sched.index_chooser(case['choices']))
 
 
 def _exhaustive_pairs(run, kind, pairs, max_runs):
     lexhook.install()
     eng = sut(kind)
-    for a, b in pairs:
+    for pi, (a, b) in enumerate(pairs):
+        if _STALLS[0] >= STALL_LIMIT:
+            run.exclude('scheduler tier abandoned: parses block each other')
+            continue
         texts = [a, b]
+        # every third pair: one thread uses the two-argument parse form
+        vias = ['plain', 'options'] if pi % 3 == 1 else None
         case = {'kind': 'concurrent', 'engine': kind, 'texts': texts}
+        if vias:
+            case['vias'] = vias
         state = {'bad': False}
 
         def on_run(results, trace, info):
@@ -267,9 +300,11 @@ def _exhaustive_pairs(run, kind, pairs, max_runs):
                 state['bad'] = _compare(run, full, kind, texts, got,
                                         'concurrent')
         try:
-            n, complete = sched.explore(lambda: _make_fns(eng, texts), on_run,
-                                        max_runs=max_runs)
+            n, complete = sched.explore(
+                lambda: _make_fns(eng, texts, vias), on_run,
+                max_runs=max_runs, timeout=3.0)
         except sched.Stuck:
+            _STALLS[0] += 1
             run.inconclusive += 1
             continue
         run.classes['pairs_enumerated_completely' if complete
@@ -361,19 +396,28 @@ LINE_POOL = ["'a\\n\\tb\\x41\\xZZ'", "   'q\\n\\t'", "'\\u00e9' + 1",
              '$x.where($ > 1)', '{a => [1, 2]}.a[0]']
 
 
+_LINE_BLOCKED = [0]
+
+
 def check_line(run, case):
     """case: {kind: line, engine, texts: [A, B], at, cold}"""
     kind = case['engine']
     ta, tb = (common.dec(t) for t in case['texts'])
     eng = fresh_engine(kind, really=True) if case.get('cold') else sut(kind)
     common.reset_process_state()
+    if _LINE_BLOCKED[0] >= 5:
+        run.exclude('line tier abandoned: parses block each other')
+        return
+    eng_b = _WithOptions(eng) if case.get('b_options') else eng
     out = linesched.run_preempted(
         lambda: trees.parse_outcome(eng, ta),
-        lambda: trees.parse_outcome(eng, tb), case['at'], _YAQL_DIR)
+        lambda: trees.parse_outcome(eng_b, tb), case['at'], _YAQL_DIR)
     if out is None:
         run.inconclusive += 1
         return
     ra, rb, fired, where = out
+    if fired == 'blocked':
+        _LINE_BLOCKED[0] += 1
     got = [r[1] if r[0] == 'ok' else
            ('exc', type(r[1]).__name__, None, None, str(r[1]))
            for r in (ra, rb)]
@@ -403,7 +447,8 @@ def _line_shard(run, jobs):
         for at in ats:
             check_line(run, {'kind': 'line', 'engine': kind,
                              'texts': [common.enc(ta), common.enc(tb)],
-                             'at': at, 'cold': cold})
+                             'at': at, 'cold': cold,
+                             'b_options': at % 3 == 0})
 
 
 REPLAY = {'line': check_line,
@@ -508,11 +553,13 @@ def run(run):
         'counted in classes.pairs_cut_at_budget' % len(pairs))
     # random schedules, 2-3 threads, longer texts
     conc = st.builds(
-        lambda k, ts, ch: {'kind': 'concurrent-choices', 'engine': k,
-                           'texts': [common.enc(t) for t in ts],
-                           'choices': ch},
+        lambda k, ts, ch, vs: {'kind': 'concurrent-choices', 'engine': k,
+                               'texts': [common.enc(t) for t in ts],
+                               'choices': ch, 'vias': vs[:len(ts)]},
         st.sampled_from(KINDS), _texts(2, 3),
-        st.lists(st.integers(0, 2), max_size=60))
+        st.lists(st.integers(0, 2), max_size=60),
+        st.lists(st.sampled_from(['plain', 'plain', 'options']), min_size=3,
+                 max_size=3))
     run.hyp('random-schedules', conc,
             lambda c: check_concurrent_choices(run, c),
             6000 if full else 300)
